@@ -40,7 +40,7 @@ LEAVES = [
     B(ret=['bad', 'ok'], opts={'force_repeat': True, 'repeat_limit': 2}),
     B(ret=['ok'], meas=['fail', 'pass'], opts={'repeat_on_measurement_fail': True}),
     B(ret=['ok'], meas=['fail', 'fail', 'fail'], opts={'repeat_on_measurement_fail': True}),
-    B(ret=['hang', 'ok'], opts={'repeat_on_timeout': True}),
+    B(ret=['hang', 'ok'], opts={'repeat_on_timeout': True}), B(ret=['hangswallow']),
     B(ret=['sysexit', 'ok'], opts={'repeat_on_timeout': True}),
     B(ret=['repeat', 'ok'], meas=['dimbad', 'dimgood']),
     B(ret=['hang'], opts={'repeat_on_timeout': True, 'repeat_limit': 2}),
